@@ -188,6 +188,7 @@ PROPERTIES["C16"] = {
 
 VENEERS_HARNESS = _h(("internal/zzverif/hveneers/zz_verif_c17.go", "harness/hveneers/zz_verif_c17.go"),
                      ("internal/zzverif/hveneers/zz_verif_c17_more.go", "harness/hveneers/zz_verif_c17_more.go"),
+                     ("internal/zzverif/hveneers/zz_verif_c09_nilchecks.go", "harness/hveneers/zz_verif_c09_nilchecks.go"),
                      ("internal/zzverif/hveneers/zz_verif_c14.go", "harness/hveneers/zz_verif_c14.go"))
 
 PROPERTIES["C17"] = {
@@ -360,7 +361,8 @@ PROPERTIES["C13"] = {
 
 
 def _c09_runs(ctx):
-    return [_gen_run(ctx, "widgets", "widgets", [("widgets/zz_verif_c09.go", "harness/gen/widgets/zz_verif_c09.go")], ["VerifC09Option", "VerifC09TwoOptions"])]
+    return [_gen_run(ctx, "widgets", "widgets", [("widgets/zz_verif_c09.go", "harness/gen/widgets/zz_verif_c09.go")], ["VerifC09Option", "VerifC09TwoOptions"]),
+            Run("nilchecks", ["./internal/zzverif/hveneers"], VENEERS_HARNESS, ["VerifC09NilChecks"], "internal/zzverif/hveneers", test_pkg_name="hveneers", needs_leaf=True)]
 
 PROPERTIES["C09"] = {
     "level_text": "Two-stage, bounded symbolic execution + SMT. Stage 1: the REAL generator emits Go types and builders for the corpus. Stage 2: every option of the generated builder is "
